@@ -1044,6 +1044,145 @@ theorem accAsyncAccept_eq (n : NetSt) (now : Int) (name : String) (op : AcceptOp
   unfold NetSt.accAsyncAccept accAcceptPrep
   rfl
 
+/-- what phase 0 of `async_accept` guarantees: ids conserved, the acceptor still there with the
+    same accept state, its queued connections still valid -/
+theorem accAcceptPrep_props (n : NetSt) (now : Int) (name : String) (op : AcceptOp) (s : TcpSock)
+    (hs : n.tcp? name = some s)
+    (hfresh : ∀ h nn, op = .fresh h nn → n.tcp? nn = none) (hv : AccConnsOk n name) :
+    TCons n (accAcceptPrep n now name op).1 (accAcceptPrep n now name op).2 []
+    ∧ (∃ s', (accAcceptPrep n now name op).1.tcp? name = some s' ∧ s'.acc = s.acc)
+    ∧ AccConnsOk (accAcceptPrep n now name op).1 name
+    ∧ noInvoke (accAcceptPrep n now name op).2 := by
+  unfold accAcceptPrep
+  cases op with
+  | into h peer we =>
+    dsimp only
+    cases hp : n.tcp? peer with
+    | none => exact ⟨TCons.refl n, ⟨s, hs, rfl⟩, hv, by simp⟩
+    | some p =>
+      dsimp only
+      split
+      · obtain ⟨t', ht', ha'⟩ := tcpClose_acc n now peer name s hs
+        refine ⟨tcons_tcpClose n now peer, ⟨t', ht', ha'⟩, ?_, ni_tcpClose _ _ _⟩
+        refine AccConnsOk.mono hv ?_ (by rw [chanLen_tcpClose]; exact Nat.le_refl _)
+        intro s' a' hs' hacc
+        rw [ht'] at hs'; cases hs'
+        exact ⟨s, a', hs, by rw [← ha', hacc], fun c hc => hc⟩
+      · exact ⟨TCons.refl n, ⟨s, hs, rfl⟩, hv, by simp⟩
+  | fresh h nn =>
+    dsimp only
+    rw [hs]; dsimp only
+    have hnn := hfresh h nn rfl
+    have hne : name ≠ nn := by intro e; subst e; rw [hs] at hnn; cases hnn
+    refine ⟨TCons.setTcp_absent hnn rfl (Or.inl rfl), ⟨s, by rw [setTcp_tcp_other _ _ _ _ hne]; exact hs, rfl⟩, ?_, by simp⟩
+    refine AccConnsOk.mono hv ?_ (Nat.le_refl _)
+    intro s' a' hs' hacc
+    rw [setTcp_tcp_other _ _ _ _ hne] at hs'
+    exact ⟨s', a', hs', hacc, fun c hc => hc⟩
+
+/-- **`async_accept` (three overloads)** conserves handler ids. Preconditions: the object is an
+    acceptor; the socket a socket-returning accept creates does not exist yet; queued
+    connections are valid channels. -/
+theorem tcons_accAsyncAccept (n : NetSt) (now : Int) (name : String) (op : AcceptOp) (s : TcpSock)
+    (hs : n.tcp? name = some s) (hacc : s.acc.isSome)
+    (hfresh : ∀ h nn, op = .fresh h nn → n.tcp? nn = none) (hv : AccConnsOk n name) :
+    TCons n (n.accAsyncAccept now name op).1 (n.accAsyncAccept now name op).2 [op.h] := by
+  rw [accAsyncAccept_eq]
+  obtain ⟨h0, ⟨s', hs', ha'⟩, hv', _⟩ := accAcceptPrep_props n now name op s hs hfresh hv
+  rw [hs']; dsimp only
+  obtain ⟨f1, f2, f3, f4, f5, f6, f7, f8⟩ := tcp_abortAccept_frame s'
+  obtain ⟨g0, g1, g2, g3, g4⟩ := tcp_abortAccept_slots s'
+  cases ha2 : s'.abortAccept.1.acc with
+  | none =>
+    rw [ha2] at f6; rw [ha'] at f6; rw [← f6] at hacc; cases hacc
+  | some a =>
+    dsimp only
+    -- the old accept is aborted, the new one parked
+    have h1 : TCons (accAcceptPrep n now name op).1
+        ((accAcceptPrep n now name op).1.setTcp name
+          { s'.abortAccept.1 with acc := some { a with acceptOp := some op } }) s'.abortAccept.2 [op.h] := by
+      refine TCons.setTcp_present hs' (fun hx => ⟨?_, ?_⟩)
+      · have hc := tcp_conserve_abortAccept s'
+        unfold TcpSock.slotIds at hc ⊢
+        rw [g0, g1, g2, g3, g4] at hc
+        unfold TcpSock.acceptOp at hc ⊢
+        dsimp only at hc ⊢
+        rw [g1, g2, g3, g4]
+        simp only [Option.bind_some, Option.map_some, Option.toList_some, Option.map_none, Option.toList_none] at hc ⊢
+        perm_omega hc
+      · unfold TcpSock.recvExcl at *; dsimp only; rw [g1, g2]; exact hx
+    have hv2 : AccConnsOk ((accAcceptPrep n now name op).1.setTcp name
+          { s'.abortAccept.1 with acc := some { a with acceptOp := some op } }) name := by
+      refine AccConnsOk.mono hv' ?_ (Nat.le_refl _)
+      intro s2 a2 hs2 hacc2
+      rw [setTcp_tcp_same] at hs2; cases hs2
+      simp only [Option.some.injEq] at hacc2; subst hacc2
+      cases hsa : s'.acc with
+      | none => rw [hsa] at f7; rw [ha2] at f7; simp at f7
+      | some a0 =>
+        rw [hsa, ha2] at f7
+        simp only [Option.map_some, Option.some.injEq] at f7
+        exact ⟨s', a0, hs', hsa, fun c hc => by rw [← f7]; exact hc⟩
+    exact ((h0.trans h1).trans (tcons_accCheckQueue _ now name hv2)).congr (by simp) (by simp)
+
+theorem ni_accAsyncAccept (n : NetSt) (now : Int) (name : String) (op : AcceptOp) :
+    noInvoke (n.accAsyncAccept now name op).2 := by
+  rw [accAsyncAccept_eq]
+  have h0 : noInvoke (accAcceptPrep n now name op).2 := by
+    unfold accAcceptPrep
+    splits <;> first | simp | exact ni_tcpClose _ _ _
+  splits <;> simp [h0, ni_tcp_abortAccept, ni_accCheckQueue]
+
+/-- **`acceptor::close()`** conserves handler ids (queued connections valid) -/
+theorem tcons_accClose (n : NetSt) (now : Int) (name : String) (hv : AccConnsOk n name) :
+    TCons n (n.accClose now name).1 (n.accClose now name).2 [] := by
+  unfold NetSt.accClose
+  cases hs : n.tcp? name with
+  | none => exact TCons.refl n
+  | some s =>
+    dsimp only
+    generalize hs1 : (match s.acc with
+      | some a => ({ s with acc := some { a with queueLimit := -1 } } : TcpSock)
+      | none => s) = s1
+    have hslots : s1.recvH = s.recvH ∧ s1.waitRecvH = s.waitRecvH ∧ s1.sendH = s.sendH
+        ∧ s1.connectH = s.connectH ∧ s1.acceptOp = s.acceptOp
+        ∧ s1.acc.map (·.conns) = s.acc.map (·.conns) := by
+      subst hs1
+      cases ha : s.acc <;> simp [TcpSock.acceptOp, ha]
+    obtain ⟨e1, e2, e3, e4, e5, e6⟩ := hslots
+    obtain ⟨g0, g1, g2, g3, g4⟩ := tcp_abortAccept_slots s1
+    have h1 : TCons n (n.setTcp name s1.abortAccept.1) s1.abortAccept.2 [] := by
+      refine TCons.setTcp_present hs (fun hx => ⟨?_, ?_⟩)
+      · rw [List.append_nil, ← tcp_slotIds_congr e1 e2 e3 e4 e5]
+        exact tcp_conserve_abortAccept s1
+      · unfold TcpSock.recvExcl at *; rw [g1, g2, e1, e2]; exact hx
+    have h2 := tcons_tcpClose (n.setTcp name s1.abortAccept.1) now name
+    have hv2 : AccConnsOk ((n.setTcp name s1.abortAccept.1).tcpClose now name).1 name := by
+      refine AccConnsOk.mono hv ?_ (by rw [chanLen_tcpClose]; exact Nat.le_refl _)
+      intro s2 a2 hs2 hacc2
+      obtain ⟨t', ht', hta⟩ := tcpClose_acc (n.setTcp name s1.abortAccept.1) now name name _ (setTcp_tcp_same _ _ _)
+      rw [ht'] at hs2; cases hs2
+      have f7 := (tcp_abortAccept_frame s1).2.2.2.2.2.2.1
+      rw [← hta, hacc2, e6] at f7
+      cases hsa : s.acc with
+      | none => rw [hsa] at f7; simp at f7
+      | some a0 =>
+        rw [hsa] at f7
+        simp only [Option.map_some, Option.some.injEq] at f7
+        exact ⟨s, a0, hs, hsa, fun c hc => by rw [← f7]; exact hc⟩
+    subst hs1
+    have h3 := (h1.trans h2).trans (tcons_accCheckQueue _ now name hv2)
+    refine TCons.congr h3 ?_ ?_
+    · simp only [effIds_append, List.append_assoc]; rfl
+    · rfl
+
+theorem ni_accClose (n : NetSt) (now : Int) (name : String) : noInvoke (n.accClose now name).2 := by
+  unfold NetSt.accClose
+  split
+  · simp
+  · dsimp only
+    simp [ni_tcp_abortAccept, ni_tcpClose, ni_accCheckQueue]
+
 end HL
 
 end SimVerif
